@@ -64,3 +64,12 @@ Theorem C06_source_scroll_down : forall b a z n p, g_buffer_scroll_down b a z n 
 Proof. exact tie_buffer_scroll_down. Qed.
 Check C06_source_scroll_down : forall b a z n p, g_buffer_scroll_down b a z n p =~ buf_scroll_down b a z n p.
 Print Assumptions C06_source_scroll_down.
+
+From Avt Require Import Proofs.StepC05.
+(** clauses of other properties' statements that this property's text contains and its check evaluates on the implementation *)
+(** "DECSTBM takes effect only for 1 <= top < bottom <= rows and otherwise leaves the margins as they were": the margins clause of the cursor-command specification, for DECSTBM (evaluated as `C06.decstbm_region`) *)
+Theorem C06_decstbm_region : forall p p' t a b t', TInv t -> execute t (Decstbm a b) = Ok t' -> holds_C05 (mkVt p t) (Decstbm a b) (mkVt p' t') = true.
+Proof. intros p p' t a b t'. exact (C05_holds p p' t (Decstbm a b) t'). Qed.
+Check C06_decstbm_region : forall p p' t a b t', TInv t -> execute t (Decstbm a b) = Ok t' -> holds_C05 (mkVt p t) (Decstbm a b) (mkVt p' t') = true.
+Print Assumptions C06_decstbm_region.
+
